@@ -12,8 +12,8 @@ import (
 	"math"
 	"math/rand"
 	"os"
-	"strings"
 	"sort"
+	"strings"
 	"time"
 
 	"github.com/ipfs/go-cid"
